@@ -155,7 +155,7 @@ const c01TagForms = `{% if X %}a{% elif X.0 %}b{% else %}c{% endif %}
 {{ f_float(X) }}
 {{ f_bool(X) }}
 {{ f_slice(X) }}
-{{ f_iface(X) }}
+{{ f_iface(X) }}{{ f_variface(X) }}{{ f_variface(z_stringer, X, 1) }}{{ f_iface_variface(X, X) }}{{ f_errarg(X) }}{{ f_varerr(1, X) }}{{ f_varany(X, X) }}{{ f_varvalue(X, 1) }}
 {{ f_ctxarg(X) }}
 {{ z_struct.Add(X, 1) }}
 {{ z_struct.Variadic(X) }}
